@@ -33,21 +33,7 @@ LEGS = {1: "seg (compute_bytecode_segment_lengths)", 2: "lay (statement/const/hi
 
 
 def run(ctx):
-    source_leg = "not requested (quick tier)"
-    if ctx.thorough:
-        # thorough tier: also link the compiler front end and compile cairo_level_tests from source
-        import time
-        t = time.time()
-        rc, out = vlib.run(["cargo", "build", "--offline", "-p", "h19", "--features", "source"],
-                           cwd=vlib.HARNESS, timeout=3000)
-        ctx.log("cargo build -p h19 --features source: rc=%d (%.0fs)" % (rc, time.time() - t))
-        ok_build = rc == 0
-        source_leg = "built" if ok_build else "feature build failed, default harness used"
-        if not ok_build:
-            ctx.log("\n".join(out.splitlines()[-15:]))
-            ok_build, _ = vlib.cargo_build(ctx, "h19")
-    else:
-        ok_build, _ = vlib.cargo_build(ctx, "h19")
+    ok_build, _ = vlib.cargo_build(ctx, "h19")
     ok_make, _ = vlib.coq_make(ctx, "C19")
     cone = vlib.cone_files("C19")
     pr = vlib.check_properties_file(ctx, os.path.join(vlib.COQ, "Props/C19.v"), cone) if ok_make else None
@@ -128,8 +114,13 @@ def run(ctx):
         "evaluations": n_cases + summary.get("impl_runs", 0),
         "distinct_nontrivial": summary.get("distinct_cases", 0),
         "rule": "inputs: every *.contract_class.json under crates/cairo-lang-starknet/test_data (loaded with "
-                "ContractClass's serde, extract_sierra_program), in the thorough tier also every contract of "
-                "cairo_level_tests compiled from Cairo source by cairo_lang_starknet::compile, x variations {no pythonic hints; swapped/"
+                "ContractClass's serde, extract_sierra_program); contracts GENERATED as Cairo source (>= 3 externals, "
+                ">= 3 l1 handlers, constructor present/absent, declaration order != selector order, stand-alone / "
+                "per_item / embed_v0 / embeddable / component entry points, bodies needing pedersen, poseidon, bitwise, "
+                "ec_op, segment arena, circuit builtins; several contracts per crate) and compiled by "
+                "cairo_lang_starknet::compile in this run (twice: same class and hashes), checked against their ABI, "
+                "Sierra wrapper names and source, then required to be ACCEPTED by from_contract_class; in the thorough "
+                "tier also every contract of cairo_level_tests compiled from source; all x variations {no pythonic hints; swapped/"
                 "reversed/duplicated/aliased/subset/moved entry points; constructor variants; function index out "
                 "of range or random; 14 kinds of mutated entry function signatures; 6 Sierra versions; bytecode "
                 "size limits around the exact length}; hand-built programs with felt252_const<v> for boundary v; "
@@ -140,7 +131,6 @@ def run(ctx):
                 "panic), none is empty.",
         "input_distribution": summary,
         "programs": summary.get("classes", 0),
-        "source_leg": source_leg,
         "traces_validated_against_impl": summary.get("oracle_checked_results", 0),
         "case_shards": n_shards,
         "correspondence_disagreements": len(corr_bad),
